@@ -4,6 +4,7 @@ LEVEL = "other"
 
 def check(rep, tier):
     from contracts import core_backward, core_outgrads, tracer_primitive, core_rules
+    core_backward.run_proof(rep, tier)
     core_backward.run_bounded(rep, tier)
     core_outgrads.run(rep, tier, only=("AO-value", "AO-dense", "AO-inductive"))
     tracer_primitive.run(rep, tier, only=("W4", "W2", "W3"))
